@@ -639,11 +639,7 @@ class TypeAlias:
 
     def __eq__(self, other: object) -> bool:
         if isinstance(other, TypeAlias):
-            return (
-                self.name == other.name
-                and self.type == other.type
-                and self.kind == other.kind
-            )
+            return self.name == other.name and self.type == other.type
         return False
 
     def get_inner_types(self) -> List[Type]:
